@@ -154,7 +154,10 @@ def run_suite(ctx, name, gen_args, timeout=1200):
                            text=True, timeout=timeout, env=env)
     if p.returncode != 0:
         raise RuntimeError("driver %s failed: %s" % (gen_args, p.stderr[-2000:]))
-    rc, so, se = C.run([prep["model_driver"], cf], check=False, timeout=timeout)
+    menv = dict(os.environ)
+    if ctx.tier == "thorough":
+        menv["VERIF_MODEL_BIG"] = "1"
+    rc, so, se = C.run([prep["model_driver"], cf], check=False, timeout=timeout, env=menv)
     if rc != 0:
         raise RuntimeError("model driver failed: " + se[-2000:])
     rows = []
